@@ -109,6 +109,27 @@ pub fn gen_c01(tier: &str, r: u64, ex: u64, rng: &mut Rng) -> Value {
     let maxlen = (0..nv).map(|i| vlen(&vals, i)).max().unwrap_or(0);
     let c0 = json!({"val":0,"algo":algo});
     let c1 = json!({"val":1,"algo":algo});
+    // some extractions happen while the content is still pristine and are repeated to the same destination after the damage
+    let mut repeat_after: Vec<Value> = Vec::new();
+    if rng.chance(1, 3) {
+        let f = flav(rng);
+        let mut pre = vec![
+            json!({"k":"api","op":"hard_link","key":0,"to":"$O/pre-hk"}),
+            json!({"k":"api","op":"hard_link","addr":c0,"to":"$O/pre-ha"}),
+            json!({"k":"api","op":"copy","key":0,"to":"$O/pre-ck"}),
+            json!({"k":"api","op":"copy","addr":c0,"to":"$O/pre-ca"}),
+        ];
+        rng.shuffle(&mut pre);
+        pre.truncate(rng.range(1, 3) as usize);
+        for p in pre.iter_mut() {
+            set_flav(p, f);
+        }
+        steps.extend(pre.clone());
+        for p in pre.iter_mut() {
+            set_flav(p, flav(rng));
+        }
+        repeat_after = pre;
+    }
     let ndmg = if rng.chance(1, 5) { 2 } else { 1 };
     for _ in 0..ndmg {
         let d = match rng.below(10) {
@@ -125,6 +146,7 @@ pub fn gen_c01(tier: &str, r: u64, ex: u64, rng: &mut Rng) -> Value {
         };
         steps.push(d);
     }
+    steps.extend(repeat_after);
     let nf = rng.range(1, 3);
     for i in 0..nf {
         let f = flav(rng);
